@@ -101,6 +101,7 @@ AlignPad(a, n) == (n - (a % n)) % n
 EmitsBytes(s) ==
   \/ s.k \in {"ins", "br", "far"}
   \/ s.k = "data" /\ ItemsLen(s.items, DataWidth(s.mn)) > 0
+  \/ s.k = "datab"
   \/ s.k = "raw" /\ s.emits
 
 \* value of an immediate-like source operand under a symbol table (only when OpDefined)
